@@ -508,7 +508,7 @@ def _is_mask_or_count(expr, R, depth=0):
 def _nonneg(expr, R, f, depth=0):
     """syntactic sign analysis: is expr >= 0, given the stated premise that
     the approach force reaches positive values (max(force) > 0)?"""
-    if depth > 8:
+    if depth > 20:
         return False
     if isinstance(expr, ast.Constant):
         return isinstance(expr.value, (int, float)) and expr.value >= 0
@@ -551,6 +551,16 @@ def _nonneg(expr, R, f, depth=0):
         if isinstance(expr.value, ast.Attribute) and expr.value.attr == \
                 "shape":
             return True
+        # element i of a local bound to tuples (None alternatives cannot
+        # be indexed: that path does not get here)
+        if isinstance(expr.slice, ast.Constant) and isinstance(
+                expr.slice.value, int) and isinstance(expr.value, ast.Name):
+            ds = [d for d in R.defs.get(expr.value.id, []) if d is not None
+                  and not (isinstance(d, ast.Constant) and d.value is None)]
+            if ds and all(isinstance(d, ast.Tuple) and len(d.elts) >
+                          expr.slice.value for d in ds):
+                return all(_nonneg(d.elts[expr.slice.value], R, f,
+                                   depth + 1) for d in ds)
         return _nonneg(expr.value, R, f, depth + 1)
     if isinstance(expr, ast.Attribute):
         if dotted(expr) in ("np.nan", "numpy.nan"):
